@@ -41,6 +41,10 @@ pub mod gzi;
 pub mod io;
 pub mod virtual_position;
 
+#[cfg(noodles_verif)]
+#[doc(hidden)]
+pub mod verif_gate;
+
 pub use self::virtual_position::VirtualPosition;
 
 // XLEN (2)
